@@ -169,4 +169,10 @@ CHECKS['SMOKE'] = dict(title='world smoke', parallel=1, parts=[world_part('w', q
 CHECKS['C01'] = dict(title='module lifecycle', parallel=1,
     parts=[world_part('w', quick=[_w('C01', 2, 1, 5, 150)], thorough=[_w('C01', 3, 2, 8, 1500, 2)])])
 CHECKS['C02'] = dict(title='pub/sub', parallel=1,
-    parts=[world_part('w', quick=[_w('C02', 2, 1, 5, 150)], thorough=[_w('C02', 3, 2, 7, 1500, 2)])])
+    parts=[world_part('w', quick=[_w('C02', 2, 1, 4, 150)], thorough=[_w('C02', 3, 2, 7, 1500, 2)])])
+CHECKS['C07'] = dict(title='C07', parallel=1, parts=[world_part('w', quick=[_w('C07', 2, 1, 5, 150)], thorough=[_w('C07', 3, 2, 8, 1500, 2)])])
+CHECKS['C08'] = dict(title='C08', parallel=1, parts=[world_part('w', quick=[_w('C08', 2, 0, 5, 150)], thorough=[_w('C08', 3, 1, 8, 1500, 2)])])
+CHECKS['C15'] = dict(title='C15', parallel=1, parts=[world_part('w', quick=[_w('C15', 2, 1, 4, 150)], thorough=[_w('C15', 3, 2, 6, 1500, 2)])])
+CHECKS['C16'] = dict(title='C16', parallel=1, parts=[world_part('w', quick=[_w('C16', 2, 3, 5, 150)], thorough=[_w('C16', 3, 4, 8, 1500, 2)])])
+CHECKS['C17'] = dict(title='C17', parallel=1, parts=[world_part('w', quick=[_w('C17', 2, 2, 5, 150)], thorough=[_w('C17', 3, 3, 8, 1500, 2)])])
+CHECKS['C19'] = dict(title='C19', parallel=1, parts=[world_part('w', quick=[_w('C19', 2, 0, 5, 150)], thorough=[_w('C19', 3, 1, 8, 1500, 2)])])
